@@ -31,7 +31,7 @@ DIRECT = {
     "nonneg": (None, "non_negative"),
     "normalize": (None, "normalize"),
 }
-LAW = {"l1": "hom", "l2": "hom", "simplex": "hom", "l1ball": "hom",
+LAW = {"l1": "hom", "l1arr": "hom", "l2": "hom", "simplex": "hom", "l1ball": "hom",
        "nonneg": "lin", "l2sq": "lin", "smooth": "lin", "mono": "lin", "unimodal": "lin", "hard": "lin",
        "normsparse": "inv", "normalize": "inv"}      # cross-checked against the spec's ScaleLaw in run()
 
@@ -52,6 +52,12 @@ def _callables(case):
     """name -> function(array) for the runs of this case."""
     from tensorly.tenalg import proximal as P
     op = case["op"]
+    if op == "l1arr":
+        # documented array form of the threshold: one threshold per entry, same shape as the input
+        thr = np.array(case["t"], dtype=np.float64).T / case["q"] * 10.0 ** case["sc"]       # n x nc
+        if case["ndim"] == 1:
+            thr = thr[:, 0]
+        return {"direct": lambda a: P.soft_thresholding(a, thr.copy())}
     par = _param(case)
     fn, kw = DIRECT[op]
     runs = {}
@@ -109,7 +115,7 @@ def execute_vec(case):
             runs[name] = {"raised": True, "exc": type(ex).__name__, "size": 0, "out": [], "out4": [], "again": [],
                           "again_raised": False}
     return {"id": case["id"], "kind": "vec", "op": op, "p": case["p"], "q": case["q"], "k": case["k"], "dec": case["dec"],
-            "sc": sc, "cols": cols, "ndim": case["ndim"], "runs": runs}
+            "sc": sc, "cols": cols, "t": case.get("t", []), "ndim": case["ndim"], "runs": runs}
 
 
 def mat_of(case):
@@ -169,13 +175,15 @@ def _flags(op, cols, p, q_):
 
 def build_cases(chk, cfgs, thorough):
     rng = random.Random(chk.seed)
-    fam_meta, vecs, mats = {}, [], []
+    fam_meta, vecs, mats, arrs = {}, [], [], []
     for c in cfgs:
         if c["op"] == "start":
             f = c["fam"]
             fam_meta[(f["op"], f["p"], f["q"], f["k"], f["dec"])] = (c["columnwise"], c["law"])
-        elif c["op"] in ("startm", "none"):
+        elif c["op"] in ("startm", "starta", "none"):
             continue
+        elif c["op"] == "l1arr":
+            arrs.append(c)
         elif c["op"] in ("svt", "procrustes"):
             mats.append(c)
         else:
@@ -214,10 +222,28 @@ def build_cases(chk, cfgs, thorough):
             pick = vs if thorough else rng.sample(vs, max(1, min(len(vs), 2 + len(vs) // 10)))
             for v in pick:
                 add("vec", op, dict(p=p, q=q_, k=k, dec=dec, sc=sc, cols=[v], ndim=1, flags=_flags(op, [v], p, q_)))
+    # per-entry threshold arrays (soft_thresholding's documented ndarray form): every (v, t) as a vector,
+    # 2-3 column matrices with a threshold matrix, scaled inputs
+    arrs.sort(key=lambda c: (len(c["v"]), list(c["v"]), list(c["t"])))
+    for c in arrs:
+        add("vec", "l1arr", dict(p=0, q=c["q"], k=0, dec=False, sc=0, cols=[list(c["v"])], t=[list(c["t"])], ndim=1,
+                                 flags=_flags("l1arr", [list(c["v"])], 0, c["q"])))
+    by_n = {}
+    for c in arrs:
+        by_n.setdefault(len(c["v"]), []).append(c)
+    for n, cs in sorted(by_n.items()):
+        for t in range(len(cs) // 4 if thorough else 60 * n):
+            pick = [rng.choice(cs) for _ in range(2 + t % 2)]
+            add("vec", "l1arr", dict(p=0, q=pick[0]["q"], k=0, dec=False, sc=0, cols=[list(c["v"]) for c in pick],
+                                     t=[list(c["t"]) for c in pick], ndim=2, flags={"allneg": False, "hasneg": True}))
+        for sc in (-3, 3):
+            for c in (cs if thorough else rng.sample(cs, min(len(cs), 40 * n))):
+                add("vec", "l1arr", dict(p=0, q=c["q"], k=0, dec=False, sc=sc, cols=[list(c["v"])], t=[list(c["t"])], ndim=1,
+                                         flags={"allneg": False, "hasneg": True}))
     for c in mats:
         add("mat", c["op"], dict(p=c["p"], q=c["q"], m=c["m"], n=c["n"], uf=[list(u) for u in c["uf"]],
                                  vf=[list(u) for u in c["vf"]], c=list(c["c"])))
-    return cases, n_base, len(vecs), len(mats)
+    return cases, n_base, len(vecs) + len(arrs), len(mats)
 
 
 def run(chk, opts):
